@@ -65,6 +65,7 @@ type FuncContract struct {
 	Frozen   []string
 	Inline   bool
 	PerReturn bool
+	Holds    string // "s.mu": the function is only called with this mutex held (…Locked helpers)
 }
 
 type Monitor struct {
@@ -526,6 +527,8 @@ func (db *ContractDB) loadContractFile(path string, pkgPath string, src []byte) 
 			}
 		case "returns":
 			curF.Returns = strings.Fields(strings.ReplaceAll(rest, ",", " "))
+		case "holds":
+			curF.Holds = rest
 		case "frozen":
 			curF.Frozen = append(curF.Frozen, strings.Fields(strings.ReplaceAll(rest, ",", " "))...)
 		case "requires", "ensures":
